@@ -95,6 +95,12 @@ fn requests() -> Vec<(&'static str, Vec<&'static str>, Option<Vec<&'static str>>
         ("value-injection-attempts", vec!["X-A: a%0d%0aX-Real-IP: 6.6.6.6", "X-B: b\\r\\nSozu-Id: forged", "X-Forwarded-For: 1.2.3.4\t, 6.6.6.6"], None),
         ("connection-specific", vec!["Connection: keep-alive, X-Hop", "Keep-Alive: timeout=5", "X-Hop: secret", "Proxy-Connection: keep-alive", "TE: trailers", "X-A: 1"], None),
         ("cookie-crumbs", vec!["Cookie: a=1", "Cookie: b=2", "X-A: 1", "Cookie: c=3; d=4"], None),
+        ("cookie-crumbs-slow-backend", vec!["Cookie: a=1", "X-Before: 0123456789", "Cookie: b=2", "X-A: 1", "Cookie: c=3; d=4", "X-After: 0123456789"], None),
+        ("duplicates-slow-backend", vec!["X-A: 1", "X-B: b", "X-A: 2", "Accept: */*", "X-Long: 0123456789012345678901234567890123456789"], None),
+        // (HTTP/2 clients: the pseudo-header fields in the order browsers send them, :authority before :path)
+        ("pseudo-order-authority-first", vec!["X-A: 1", "Accept: */*"], None),
+        // ... towards a backend that takes 7 bytes per event-loop turn: every write stops somewhere else in the head
+        ("pseudo-order-authority-first-slow-backend", vec!["X-A: 1", "Accept: */*"], None),
         ("trailers-plain", vec!["Trailer: X-T"], Some(vec!["X-T: v"])),
         ("trailers-spoof", vec!["X-A: 1"], Some(vec!["X-Forwarded-For: 6.6.6.6", "X-Real-IP: 6.6.6.6", "Forwarded: for=6.6.6.6", "Sozu-Id: forged", "X-Request-Id: forged", "X-T: v"])),
     ]
@@ -226,6 +232,9 @@ pub fn run_case(case: &Case, prefix: Vec<u32>, profile: ChoiceProfile) -> Run {
         client_script.push(Step::H2Start { settings: vec![(h2::S_ENABLE_PUSH, 0)], policy: h2::WindowPolicy::Eager });
         client_script.push(Step::H2Await(H2Cond::PeerSettings));
         let mut hs: Vec<(String, String)> = vec![(":method".into(), if req_trailers.is_some() { "POST" } else { "GET" }.into()), (":scheme".into(), "https".into()), (":path".into(), "/a".into()), (":authority".into(), "a.io".into())];
+        if case.request.starts_with("pseudo-order-authority-first") {
+            hs = vec![(":method".into(), "GET".into()), (":authority".into(), "a.io".into()), (":scheme".into(), "https".into()), (":path".into(), "/abcdefghij/klmnopqrst".into())];
+        }
         hs.extend(req_lines.iter().map(|l| lower(l)).filter(|(n, _)| n != "trailer"));
         client_script.push(Step::H2Headers { stream: 1, headers: hs, end_stream: req_trailers.is_none(), continuation_at: None });
         if let Some(tr) = &req_trailers {
@@ -286,6 +295,10 @@ pub fn run_case(case: &Case, prefix: Vec<u32>, profile: ChoiceProfile) -> Run {
     let backend = Peer::server("backend", back, backend_script);
     let client = Peer::client("client", client_script);
     let ws = WorkerSetup { config: worker::server_config(|c| c.buffer_size = 16393), initial: scen::http_state(&setup) };
+    let mut profile = profile;
+    if case.request.ends_with("slow-backend") {
+        profile.pace_write = Some((FdClass::Back, 7));
+    }
     let (mut exec, create_err) = worker::run_worker(ws, vec![backend, client], vec![MainStep::AwaitPeersFor { ms: 20_000 }], profile, prefix, 300);
     if let Some(e) = create_err {
         crate::common::machinery_error(&format!("worker creation failed: {e}"));
@@ -649,5 +662,6 @@ pub fn debug(args: &crate::common::Args) {
     println!("{} cases; {:?}", all.len(), c);
     let r = worker::isolated(move || run_case(&c, choices, profile())).unwrap();
     println!("obs={}", r.observation);
+    println!("trace={:?}", r.trace.iter().map(|p| format!("{}:{}/{}", p.kind, p.chosen, p.alternatives)).collect::<Vec<_>>());
     println!("violations={:#?}", r.violations);
 }
